@@ -5,7 +5,7 @@ CONSTANTS
   Relays <- R2
   MaxPath = 2
   MaxPre = 0
-  MaxEv = 6
+  MaxEv = 5
   Listeners <- L1
   MaxUser = 3
   Waits <- W2
